@@ -29,12 +29,15 @@ def run(ctx):
     thorough = ctx["tier"] == "thorough"
     common.import_dds()
     nworlds = 60 if thorough else 12
+    kind_counter = [0]
     for wi in range(nworlds):
         w = progs.gen_world(rng, nfun=rng.randint(2, 6))
         names = [f["name"] for f in w["funs"]]
         victims = names if thorough else rng.sample(names, min(3, len(names)))
         for victim in victims:
-            kind = KINDS[(3 * wi + names.index(victim) + ctx["seed"]) % len(KINDS)] if "seed" in ctx else KINDS[(3 * wi + names.index(victim)) % len(KINDS)]
+            # the kinds are dealt in turn, so that every one of them is used (several times) in every run
+            kind_counter[0] += 1
+            kind = KINDS[(kind_counter[0] + ctx.get("seed", 0)) % len(KINDS)]
             store_kind = ["memory", "local", "local_lru"][(wi + len(victim)) % 3]
             wf = copy.deepcopy(w)
             for f in wf["funs"]:
